@@ -73,12 +73,45 @@ func runSessions(path, id, role string, m int, lg *evLog, seed int64) error {
 	rnd := rand.New(rand.NewSource(seed))
 	for s := 0; s < m; s++ {
 		time.Sleep(time.Duration(rnd.Intn(800)) * time.Microsecond)
-		db, err := wt.Open(path) // default options: blocking exclusive flock
-		if err != nil {
-			return fmt.Errorf("%s: open: %v", id, err)
+		var db *wt.Whisper
+		var err error
+		if role == "creator" {
+			if s > 0 {
+				role = "writer"
+			}
 		}
-		lg.emit(map[string]interface{}{"ev": "opendone", "p": id})
-		if role == "writer" {
+		if role == "creator" {
+			// the session that creates the file (default options: O_CREATE|O_EXCL + exclusive flock): others must wait for it
+			db, err = wt.Create(path, []wt.ArchiveInfo{wt.NewArchiveInfo(1, sessSlots)}, wt.Sum, 0)
+			if err != nil {
+				return fmt.Errorf("%s: create: %v", id, err)
+			}
+		} else {
+			for try := 0; ; try++ {
+				db, err = wt.Open(path) // default options: blocking exclusive flock
+				if err != nil && os.IsNotExist(err) && try < 20000 {
+					time.Sleep(100 * time.Microsecond) // the creator has not created the file yet
+					continue
+				}
+				break
+			}
+			if err != nil {
+				// the file exists (some handle created it): an Open that fails was not serialised behind that handle
+				lg.emit(map[string]interface{}{"ev": "openerr", "p": id, "err": err.Error()})
+				s--
+				time.Sleep(300 * time.Microsecond)
+				continue
+			}
+		}
+		if role == "creator" {
+			lg.emit(map[string]interface{}{"ev": "opendone", "p": id, "created": true})
+		} else {
+			lg.emit(map[string]interface{}{"ev": "opendone", "p": id})
+		}
+		if role == "writer" || role == "creator" {
+			if role == "creator" {
+				time.Sleep(time.Duration(500+rnd.Intn(1500)) * time.Microsecond) // hold the fresh, still empty file for a while
+			}
 			pts, err := db.GetAllRawUnsortedPoints(0)
 			if err != nil {
 				return err
@@ -168,20 +201,30 @@ func runDriveFile(args []string) int {
 	ids := []struct{ id, role string }{{"w1", "writer"}, {"w2", "writer"}, {"w3", "writer"}, {"r1", "reader"}, {"r2", "reader"}}
 	for r := 0; r < rounds; r++ {
 		path := filepath.Join(dir, fmt.Sprintf("s%d.wsp", r))
-		db, err := wt.Create(path, []wt.ArchiveInfo{wt.NewArchiveInfo(1, sessSlots)}, wt.Sum, 0)
-		if err != nil {
-			fmt.Fprintln(os.Stderr, err)
-			return 2
+		ids := ids
+		if r%4 >= 2 {
+			// the file does not exist yet: the first session of w1 creates it while the others are already trying to open it
+			ids = append([]struct{ id, role string }{{"w1", "creator"}}, ids[1:]...)
+		} else {
+			db, err := wt.Create(path, []wt.ArchiveInfo{wt.NewArchiveInfo(1, sessSlots)}, wt.Sum, 0)
+			if err != nil {
+				fmt.Fprintln(os.Stderr, err)
+				return 2
+			}
+			// generation 0 on every slot
+			batch := make([]wt.Point, sessSlots)
+			for i := range batch {
+				batch[i] = wt.Point{Time: wt.Timestamp(sessNow - sessSlots + 1 + i), Value: 0}
+			}
+			db.UpdatePointsForArchive(batch, 0, sessNow)
+			db.Sync()
+			db.Close()
 		}
-		// generation 0 on every slot
-		batch := make([]wt.Point, sessSlots)
-		for i := range batch {
-			batch[i] = wt.Point{Time: wt.Timestamp(sessNow - sessSlots + 1 + i), Value: 0}
+		rs := map[string]interface{}{"ev": "reset", "round": r, "mode": []string{"goroutines", "processes"}[r%2]}
+		if r%4 >= 2 {
+			rs["nofile"] = true
 		}
-		db.UpdatePointsForArchive(batch, 0, sessNow)
-		db.Sync()
-		db.Close()
-		lg.emit(map[string]interface{}{"ev": "reset", "round": r, "mode": []string{"goroutines", "processes"}[r%2]})
+		lg.emit(rs)
 		m := 4
 		if r%2 == 0 {
 			var wg sync.WaitGroup
